@@ -53,7 +53,7 @@ func TestC10Status(t *testing.T) {
 	defer vt.Watch("TestC10Status", 120*time.Second)()
 	rec := vt.For("C10")
 	rec.Rule("status service in virtual time: a PoolStatus over a store whose Stats can be made to fail or to wait; rules: request (the response is kept together with its JSON at that moment), change the store (register nodes, move credit), let the cache expire, make the next refresh fail, 2-8 simultaneous requests meeting inside the refresh; oracle: every response handed out earlier still encodes to the JSON it had when it was handed out (a snapshot), every simultaneous request returns within 5 virtual seconds, nothing is left blocked; non-trivial = a failing refresh or simultaneous requests after a response was handed out; distinct by the op sequence")
-	rapid.Check(t, func(rt *rapid.T) {
+	check(t, func(rt *rapid.T) {
 		rapid.SyncTest(rt, func(rt *rapid.T) {
 			ss := &statusStore{Store: memory.New()}
 			ps := &status.PoolStatus{Store: ss, TimeStarted: time.Now(), Version: "verif", CacheDuration: time.Minute}
